@@ -58,6 +58,26 @@ def cut(rng, data: bytes, mode=None):
     return pieces
 
 
+def page_cut(rng, data: bytes, page: int, marks=()):
+    """pieces of EXACTLY `page` bytes (the most one transport read hands out): filler is put in front of `data` so
+    that a page boundary falls at an interesting offset — one of `marks` (ends of prompts / matches), or the end of the
+    data, give or take a byte — and what follows arrives as further pieces.  Returns (new data, pieces)."""
+    ends = [m for m in marks if 0 < m <= len(data)] or [len(data)]
+    target = rng.choice(ends) + rng.choice([0, 0, 0, -1, 1])
+    target = max(1, min(len(data), target))
+    pad = (-target) % page
+    if pad + target < page:
+        pad += page
+    k = rng.choice([1, 1, 2]) if pad + target >= 2 * page else 1
+    filler = bytes(rng.choice(b"xyz.") for _ in range(pad))
+    data = filler + data
+    cut_at = pad + target
+    head = [data[i:i + page] for i in range(0, cut_at, page)]
+    rest = data[cut_at:]
+    tail = cut(rng, rest, rng.choice(["one", "few", "rand"])) if rest else []
+    return data, head + tail
+
+
 def schedule(rng, pieces, mode=None, t_max=4096):
     """arrival ticks, non-decreasing"""
     mode = mode or rng.choice(["zero", "zero", "steady", "burst", "rand"])
